@@ -2014,13 +2014,21 @@ impl QueryServer {
         // Point of no return - we now have a DB thread AND the read ticket, we MUST complete
         // as soon as possible! The following locks and elements below are SYNCHRONOUS but
         // will never be contented at this point, and will always progress.
+        #[cfg(feature = "verif-hooks")]
+        crate::verif_hooks::c06::pause(crate::verif_hooks::c06::R_SCHEMA);
         let schema = self.schema.read();
 
+        #[cfg(feature = "verif-hooks")]
+        crate::verif_hooks::c06::pause(crate::verif_hooks::c06::R_CID);
         let cid_max = self.cid_max.read();
         let trim_cid = cid_max.sub_secs(CHANGELOG_MAX_AGE)?;
 
+        #[cfg(feature = "verif-hooks")]
+        crate::verif_hooks::c06::pause(crate::verif_hooks::c06::R_BE);
         let be_txn = self.be.read()?;
 
+        #[cfg(feature = "verif-hooks")]
+        crate::verif_hooks::c06::pause(crate::verif_hooks::c06::R_REST);
         Ok(QueryServerReadTransaction {
             be_txn,
             schema,
@@ -3040,10 +3048,16 @@ impl<'a> QueryServerWriteTransaction<'a> {
 
         // Write the cid to the db. If this fails, we can't assume replication
         // will be stable, so return if it fails.
+        #[cfg(feature = "verif-hooks")]
+        crate::verif_hooks::c06::pause(crate::verif_hooks::c06::W_DBTS);
         be_txn.set_db_ts_max(cid.ts)?;
+        #[cfg(feature = "verif-hooks")]
+        crate::verif_hooks::c06::pause(crate::verif_hooks::c06::W_CID);
         cid.commit();
 
         // We don't care if this passes/fails, committing this is fine.
+        #[cfg(feature = "verif-hooks")]
+        crate::verif_hooks::c06::pause(crate::verif_hooks::c06::W_RFC);
         if resolve_filter_cache_clear {
             resolve_filter_cache_write.clear();
         }
@@ -3052,6 +3066,8 @@ impl<'a> QueryServerWriteTransaction<'a> {
         // Point of no return - everything has been validated and reloaded.
         //
         // = Lets commit =
+        #[cfg(feature = "verif-hooks")]
+        crate::verif_hooks::c06::pause(crate::verif_hooks::c06::W_SCHEMA);
         schema
             .commit()
             .map(|_| d_info.commit())
